@@ -37,6 +37,10 @@ Definition holds_on (c : case) : bool :=
                     (ov mod 2 ^ k =? 0) && (ov <=? vaddr) && (vaddr <? ov + 2 ^ k)
         | None => false end
       else true
-  | TLBCase _ _ _ _ _ _ _ _ _ => true
+  | TLBCase psize _ _ _ _ addrs fpid cached lft =>
+      (* after the acknowledged Invalidate nothing that the filter covers is still cached, and
+         what is still cached was cached before *)
+      forallb (fun pg => negb (inval_match psize addrs fpid (fst pg) (snd pg))) lft &&
+      forallb (fun pg => existsb (pair_eqb pg) cached) lft
   | StackCase k tr _ => accepts k tr
   end.
